@@ -118,8 +118,8 @@ func hardened(c *vf.Ctx) {
 				if !c.Thorough && fi > 1 && n != m && n > 2 && m > 2 {
 					continue // quick: the full n x m square for kex and host key, the diagonal and the short lists elsewhere
 				}
-				if n > 5000 && m > 5000 && n != m {
-					continue
+				if n > 5000 && m > 20 || m > 5000 && n > 20 {
+					continue // the 2^16-sized lists meet the short lists only (n x m comparisons per call)
 				}
 				jf = append(jf, jobF{fi, n, m})
 			}
